@@ -402,11 +402,29 @@ class FakeProcess(object):
     def pid(self):
         return 100000 + int(self.name[1:])
 
+    @property
+    def sentinel(self):
+        """Handle usable with the (faked) multiprocessing.connection.wait()."""
+        return self
+
     def terminate(self):
         pass
 
     def kill(self):
         pass
+
+
+def fake_connection_wait(object_list, timeout=None):
+    """multiprocessing.connection.wait over process sentinels: returns those whose process has ended (blocks until at least
+    one has, or times out)."""
+    objs = list(object_list)
+
+    def outs():
+        ready = [o for o in objs if isinstance(o, FakeProcess) and not S.alive(o.name)]
+        if ready:
+            return {"ok": lambda: ready}
+        return {"timeout": lambda: []} if timeout is not None else {}
+    return S.sync(("conn_wait",), outs)
 
 
 @contextlib.contextmanager
@@ -415,9 +433,12 @@ def installed():
     global S
     import multiprocessing as mp
     import warnings
+    import multiprocessing.connection as mpc
     S = Sched()
     saved = (mp.Queue, mp.Event, mp.Process)
     saved_cw = warnings.catch_warnings
+    saved_wait = mpc.wait
+    mpc.wait = fake_connection_wait
     mp.Queue, mp.Event, mp.Process = FakeQueue, FakeEvent, FakeProcess
 
     class _NoCatch(object):  # warnings.catch_warnings is not thread-safe across sync points
@@ -437,6 +458,7 @@ def installed():
             S.kill_all()
         finally:
             mp.Queue, mp.Event, mp.Process = saved
+            mpc.wait = saved_wait
             warnings.catch_warnings = saved_cw
 
 
